@@ -57,7 +57,7 @@ chk("C17", "gbv/wirefmt+streamfsm",
     "DESIGN.md 5/C17")
 
 chk("C05", "gbv/lifecycle",
-    "goroutine inventory, blocking-operation classification, dominance (publish/close/release on every exit), context provenance, who-writes-what for shared cells; VTA reachability in thorough",
+    "goroutine inventory, blocking-operation classification, a three-state publish/close automaton run as a set-valued dataflow with callee transfer functions, dominance (release on every exit), context provenance, who-writes-what for shared cells; VTA reachability in thorough",
     "Decides the structure that makes termination and cleanup hold under every timing: one goroutine; the handler unreachable from it; every blocking channel operation of the reader "
     "escapable; every reader exit publishes then closes; connection close deferred on every exit after construction; the reader's context derived in Stream with a deferred cancel; Error()'s "
     "receive nil-guarded and its channel always that of a started reader; shared cells and fields written only before the go statement; the parser's only wait is a select with ctx.Done(). "
@@ -102,7 +102,8 @@ chk("C19", "gbv/dispatch+ownership+wirefmt",
     "registry/implementer cross-check on go/types; write-through taint (as C18); transfer-token comparison of the SID-block writer and reader; separator and field-order agreement between String() and parsers",
     "Decides: every GTID/GTIDSet implementation's constant flavor has a registered parser returning that type; GTIDs are comparable value types; MariadbGTIDSet methods never write the receiver's "
     "storage; SIDBlock and its reader perform the same nested fixed-width little-endian transfers with matching end bias and PREVIOUS_GTIDS feeds the event body to the reader; printing and parsing "
-    "agree on separators and field order. The round trips themselves are not decided.",
+    "agree on separators and field order; lookups in a MariaDB set (unordered, one position per domain) are full scans - no order-assuming search, no index carried over from "
+    "an enclosing loop. The round trips themselves are not decided.",
     "encoding/binary transfers the size of the static type.",
     "DESIGN.md 5/C19")
 
@@ -110,8 +111,9 @@ chk("C09", "gbv/cellcodec",
     "sparse conditional constant propagation (H-sccp) of cellLength and CellBytes over the metadata domain + canonical-term comparison (H-term); loop-skeleton extraction from phi edges",
     "Decides that the length rule and the value decoder agree on the size of a cell for every column type and every valid metadata value (quick: all 1580 DECIMAL pairs, all fsp, BIT, ENUM/SET, "
     "blob widths, boundary string lengths, every CHAR real-type byte; thorough: all 65536 metadata values of the three string types - exhaustive), that both handle the same type codes, that the four "
-    "row loops move (ordinal, NULL index, offset) by (1,0,0)/(1,1,0)/(1,1,L) on absent/NULL/value paths with L taken for Types[c], Metadata[c], that image families are not mixed and NULL bitmaps are "
-    "sized by the present-column count, and that bitmap constructors/accessors agree. It does not decide that row counts and bytes equal what a master encoded.",
+    "row loops start (ordinal, NULL index) at 0 for every image and move (ordinal, NULL index, offset) by (1,0,0)/(1,1,0)/(1,1,L) on absent/NULL/value paths with L taken for Types[c], Metadata[c], that image "
+    "families are not mixed and NULL bitmaps are sized by the present-column count, that bitmap constructors/accessors agree, and that per rows-event type Rows reads the images that type carries and finds the "
+    "column count after the table id, flags and (v2) the self-inclusive extra-data block. It does not decide that row counts and bytes equal what a master encoded.",
     "H-sccp models Go's modular integer arithmetic; dig2bytes is proven constant; metadata domains as MySQL produces them.",
     "DESIGN.md 5/C09")
 
@@ -125,7 +127,8 @@ chk("C10", "gbv/cellcodec",
 
 chk("C11", "gbv/cellcodec",
     "H-sccp over all 1580 (precision, scale) pairs + definite-write must-analysis with guarded facts + fmt-verb and loop-bound checks on the specialised CFG",
-    "Decides three necessary conditions for every valid (p,s): the text is definitely written on every path to a success return (zero never decodes to an empty value); no verb pads with spaces; after the "
+    "Decides necessary conditions for every valid (p,s): an integer digit is definitely written before the decimal point and before every success return (zero never decodes to an empty or sign-only value); no "
+    "verb pads with spaces; the cursor of each 9-digit-group loop advances by 4 on every way round; after the "
     "'.' exactly the verbs %09d (s/9 times) and %0Nd (N = s mod 9) are reachable, fed by big-endian reads of the tabulated widths, and integer groups use only %09d/%d/strconv; dig2bytes is constant and equals "
     "MySQL's table. The digit arithmetic and negative inversion are not decided.",
     "fmt verb semantics; strconv.AppendUint yields at least one digit.",
@@ -133,7 +136,7 @@ chk("C11", "gbv/cellcodec",
 
 chk("C12", "gbv/cellcodec",
     "H-sccp per (type, fsp) + reachable-format and argument-term checks; canonical value terms of the fixed layouts compared with the documented packings",
-    "Decides: per fsp the only reachable fraction format prints exactly fsp digits of the big-endian fraction bytes (divided by 10 for odd fsp); TIMESTAMP text comes from time.Unix in the local zone with "
+    "Decides: per fsp the only reachable fraction format prints exactly fsp digits of the big-endian fraction bytes (divided by 10 for odd fsp - for TIME2 as the last step, after the borrow for negative values); TIMESTAMP text comes from time.Unix in the local zone with "
     "the fields in order and the documented zero literal; DATE/NEWDATE/DATETIME/DATETIME2/TIMESTAMP/TIMESTAMP2 extract their fields from the documented bit and decimal packings. TIME/TIME2 sign and hour "
     "arithmetic and out-of-range rendering are not decided (a known mis-rendering of negative pre-5.6.4 TIME is outside static reach, see DESIGN).",
     "canonical terms are compared syntactically after normalisation.",
